@@ -38,6 +38,13 @@ def rules(ctx):
     c1310(ctx)
 
 
+def st_is_none(g, pt):
+    """the Ok(..) at pt carries None (`Ok(None)`: the lock was not taken)"""
+    st = g.blocks[pt[0]].st[pt[1]]
+    ops = st["rv"].get("ops") or []
+    return bool(ops) and any(s_["k"] == "agg" and s_.get("variant") == "None" for s_ in P.origins(g, ops[0]))
+
+
 def c13_open_options(ctx):
     R = "C02.7"
     f = ctx.fn(R, M + "_apply")
@@ -252,6 +259,14 @@ def c132(ctx):
                 for r_ in P.ok_points(g):
                     if K.guarded_by_call(g, r_, r"Iterator>?::(any|position|find)$", label="sw:1") is not None:
                         refusals.append(r_)
+        if not refusals:
+            # the closure looked through (engine/blue/chains.py): the comparisons are in _lock itself, behind `&&` control flow
+            cmps_ = [(b_.idx, i_) for b_ in g.blocks for i_, st_ in enumerate(b_.st)
+                     if st_["s"] == "=" and st_["rv"].get("r") == "bin" and st_["rv"]["op"] == "Eq" and
+                     any(s_["k"] == "call" and re.search(r"::(dev|ino)$", s_["callee"]) for o_ in (st_["rv"]["a"], st_["rv"]["b"]) for s_ in P.origins(g, o_))]
+            for r_ in P.ok_points(g):
+                if cmps_ and P.reach(g, P.ENTRY, [r_], avoid=set(cmps_)) is None and st_is_none(g, r_):
+                    refusals.append(r_)
         ctx.floor(R, "_lock: refusals decided by the in-process table", len(refusals), 1)
         for r_ in refusals:
             q = None
